@@ -46,9 +46,13 @@ RULE = ("e2e: every subset of {input, dialog, retrieval, output} (+ the call wit
         "log: synthetic processing logs (rail segments finished / unfinished, dialog steps, ignored flows and actions, LLM infos) and a malformed "
         "stream (finish without start, action outside a rail, nested starts). non-trivial = e2e with at least one rail invoked or one LLM call, "
         "log with at least one rail start; distinct = distinct case JSON. "
+        "texts: 30% of the user texts / supplied bot messages (20-40% in seq / interp) and the results of rewriting rails (prepend / replace / append) are texts that look like syntax to the runtime's own plumbing: "
+        "$-first texts, $name for every context variable the code mentions, Jinja, quotes, backslashes, newlines, blanks, the empty text, keywords, JSON, 3 000 / 20 000 characters, the predefined messages, "
+        "and every string literal the code path compares a value with (ast scan on every run); a third of the configurations let the rail action read the text from the context instead of a parameter; "
+        "30% of the sequences derive later calls' texts from earlier calls' texts; a failing case is confirmed on a freshly built LLMRails. "
         "interp: rails of the two shipped shapes (check rail / rewriting rail, one registered action each) in lists of 0-4 input x 0-3 output rails x the 17 option values x texts: the real runtime vs the interpreter model on the generated llm_flows.co program (RailsInterp.drive), rail calls, LLM calls, reply and the complete event sequence of the call.")
 TRUSTED_BASE = [
-    "translator harness/translate/c16.py (literal lists of compute_generation_log by AST path; llm_flows.co guards through the repo's own Colang 1.0 parser + Python ast)",
+    "translator harness/translate/c16.py (literal lists of compute_generation_log by AST path; llm_flows.co guards through the repo's own Colang 1.0 parser + Python ast; the shape of the two `$name`-replacing loops of _process_start_action / create_event by normalised AST comparison)",
     "correspondence harness harness/props/C16.py + harness/impl/pipeline_opts.py (scripted rails, FakeLLM, md5 embedding engine, processing-log abstraction) + Lean driver Drive/C16.lean (JSON codecs, rule-table interpreter)",
     "the Colang 1.0 interpreter model (C14's V1Interp) inside RailsInterp.drive (generate_events with scripted actions) is PROVED to refine PipelineOpts.turn (pipeline_refines_interp, unbounded rail lists); that this model is what flows.py/runtime.py do is validated by C14's correspondence and by the `interp` family (harness/impl/c16_interp.py, event for event against log.internal_events), not proved",
 ]
@@ -57,12 +61,13 @@ ASSUMPTIONS = [
     "a bot message is supplied whenever output rails are selected and dialog rails are not (the documented usage), except when the input rails end the turn before it is needed; retrieval rails only accept",
     "rails have the shape `$v = execute action; if blocked: bot refuse to respond / create event XException; stop; if rewrite: $text = …`; one utterance per turn",
     "timestamps / durations of the generation log are not modelled",
+    "LLM completions are post-processed by the generation actions (strip, first line, quotes): texts that look like syntax are used as LLM answers only in `general` mode and only where the completion is returned as it is",
     "turns stay below the runtime's safety cap of 100 new events (a handful of thorough cases with 3+2+2 rails and a two-call dialog exceed it: generate raises 'Too many events.'; skipped and counted as event-cap-hit)",
 ]
 EXHAUSTIVE = {"quick": False, "thorough": True}
 
 CATS = po.CATS
-VERDICTS = [["accept"], ["reject"], ["fault"], ["append", "!"], ["replace", "zz"]]
+VERDICTS = [["accept"], ["reject"], ["fault"], ["append", "!"], ["replace", "zz"]]  # the exhaustive tables; the sampled ones also prepend / produce hostile texts
 WORDS = ["hi", "bad", "boom", "x", "evil", "ok", ""]
 
 
@@ -78,9 +83,21 @@ def translate():
 # ----------------------------------------------------------------------------- generators
 
 def g_rule(rng, force=None):
-    v = force or rng.choice([["accept"], ["reject"], ["reject"], ["fault"], ["append", rng.choice(["!", " bad", " x", "evil"])], ["replace", rng.choice(["zz", "bad", "", "boom x"])]])
-    needle = rng.choice(["", "", "bad", "boom", "x", "evil", "!", "zz"])
+    v = force or rng.choice([["accept"], ["reject"], ["reject"], ["fault"], ["append", rng.choice(["!", " bad", " x", "evil"])], ["replace", rng.choice(["zz", "bad", "", "boom x"])],
+                             g_rewrite_hostile(rng)])
+    needle = rng.choice(["", "", "bad", "boom", "x", "evil", "!", "zz", "$", "{{", "\n", '"', " "])
     return [needle, v]
+
+
+def g_rewrite_hostile(rng):
+    """a rewriting rail whose RESULT looks like syntax of the runtime's plumbing (a `$`-text made by prefixing, a replacement
+    that names a context variable, a template, an empty / blank / multi-line text)"""
+    k = rng.random()
+    if k < 0.4:
+        return ["prepend", rng.choice(["$", "$", "$ ", "{{ ", '"', "\n", " ", "$bot_message ", "#"])]
+    if k < 0.8:
+        return ["replace", rng.choice(po.hostile_texts())]
+    return ["append", rng.choice([" }}", '"', "\n", " ", "$", "\nbad", " $user_message"])]
 
 
 def g_rail(rng, faults=True):
@@ -90,9 +107,30 @@ def g_rail(rng, faults=True):
     return rules
 
 
-def g_text(rng):
+def g_text(rng, hostile=0.3):
+    """a user text / supplied bot message: words with the trigger words of the rules, or (30 %) a text that looks like syntax
+    to some layer of the runtime (`po.hostile_texts()`: `$`-texts, names of context variables, templates, quotes, newlines,
+    blanks, the empty text, very long texts), sometimes with a trigger word behind it."""
+    if rng.random() < hostile:
+        t = po.pick_hostile(rng)
+        if rng.random() < 0.2:
+            t += rng.choice([" bad", " evil", " x", "!", " boom"])
+        return t
     n = rng.choice([1, 1, 2, 3])
     return " ".join(rng.choice(WORDS) for _ in range(n)).strip() or rng.choice(["hi", "q"])
+
+
+def g_llm_text(rng, dialog="general"):
+    """what the fake LLM answers.  The generation actions post-process an LLM completion (strip, first line / quotes in the
+    flows mode) - that is not the property's subject, so LLM texts are hostile only where the completion is returned as it is:
+    `general` mode, no surrounding blanks, not empty, no leading quote."""
+    if dialog == "general":
+        for _ in range(4):
+            t = g_text(rng, hostile=0.3)
+            if t and t.strip() == t and not t.startswith('"') and "\n" not in t and "\r" not in t:
+                return t
+    t = g_text(rng, hostile=0)
+    return "t" + t if t.startswith('"') else t
 
 
 def g_cfg(rng, small):
@@ -103,6 +141,7 @@ def g_cfg(rng, small):
         "rail_def": rng.choice(["subflow", "flow"]),
         "dialog": rng.choice(["general", "general", "predef", "llm", "refuse"]),
         "exceptions": rng.random() < 0.2,
+        "text_from": rng.choice(["param", "param", "context"]),
     }
 
 
@@ -137,9 +176,7 @@ def gen_e2e(rng, tier):
         for k in range(per_subset):
             base = rng.choice(cfgs)
             cfg = dict(base, input=[g_rail(rng) for _ in base["input"]], output=[g_rail(rng) for _ in base["output"]])
-            llm_text = g_text(rng)
-            if llm_text.startswith('"'):
-                llm_text = "t" + llm_text
+            llm_text = g_llm_text(rng, cfg["dialog"])
             cases.append(mk_e2e(cfg, None if s in (None, "NOOPT") else s, g_text(rng), rng.choice([None, g_text(rng), g_text(rng)]), llm_text, no_options=(s == "NOOPT"), form=g_form(rng)))
     if tier == "thorough":
         # exhaustive: all 16 subsets x all verdict tables (5 verdicts) for <= 2 rails per category, unconditional rules
@@ -161,7 +198,7 @@ def input_blocks(cfg, opts, user):
 
 
 def mk_call(rng, opts, cfg=None, no_options=False):
-    user = g_text(rng)
+    user = g_text(rng, hostile=0.2)
     bot = rng.choice([None, g_text(rng), g_text(rng)])
     if no_options:
         opts = None
@@ -171,7 +208,7 @@ def mk_call(rng, opts, cfg=None, no_options=False):
         # the bot message may only be left out when the input rails end the turn before it is needed
         if not (cfg is not None and input_blocks(cfg, opts, user) and rng.random() < 0.7):
             bot = g_text(rng)
-    llm_text = g_text(rng)
+    llm_text = g_llm_text(rng, (cfg or {}).get("dialog", "predef"))
     c = {"opts": opts, "user": user, "bot": bot, "llm_text": llm_text}
     if no_options:
         c["no_options"] = True  # `generate(messages)` without any options in the middle of the conversation
@@ -180,6 +217,19 @@ def mk_call(rng, opts, cfg=None, no_options=False):
         if f != "list":
             c["form"] = f
     return c
+
+
+def derive_text(rng, t):
+    r = rng.random()
+    if r < 0.5:
+        return t
+    if r < 0.7:
+        return t + rng.choice([" bad", " evil", " x"])
+    if r < 0.8:
+        return t.upper() if t.upper() != t else t.lower()
+    if r < 0.9:
+        return t + " "
+    return t[: max(1, len(t) // 2)]
 
 
 def gen_seq(rng, tier):
@@ -245,6 +295,21 @@ def gen_seq(rng, tier):
                         c.pop("form", None)
                         if f != "list":
                             c["form"] = f
+        if rng.random() < 0.3:
+            # texts of later calls DERIVED from those of earlier calls (the same text again, with a trigger word behind it, in
+            # another case, with a blank, cut): whatever is remembered per text / per part of a text is hit a second time
+            calls = case["calls"]
+            for j in range(1, len(calls)):
+                src = calls[rng.randrange(j)]
+                k = rng.choice(["user", "user", "bot"])
+                if k == "user":
+                    calls[j]["user"] = derive_text(rng, src["user"])
+                elif calls[j]["bot"] is not None and src["bot"] is not None:
+                    calls[j]["bot"] = derive_text(rng, src["bot"])
+                o = calls[j]["opts"]
+                if calls[j]["bot"] is None and not calls[j].get("no_options") and o is not None and "output" in o and "dialog" not in o and not input_blocks(cfg, o, calls[j]["user"]):
+                    calls[j]["bot"] = g_text(rng)
+            case["derived"] = True
         if not in_domain(case):
             raise AssertionError("gen_seq left the region of the property: " + json.dumps(case))
         cases.append(case)
@@ -414,7 +479,31 @@ def rails_obs(rails):
              "actions": [{"name": a.action_name, "finished": a.finished_at is not None, "llm": [c.task for c in a.llm_calls]} for a in r.executed_actions]} for r in rails]
 
 
+_CONFIRMS = {"n": 0}
+
+
 def run_impl(case):
+    """One LLMRails per structural configuration serves many cases (building one costs more than a case).  A case that FAILS the
+    documented table is therefore run once more on a freshly built LLMRails: the observation reported is the fresh one, so that
+    a replay (fresh process) sees what the check saw.  If the failure does not come back, it needed what EARLIER cases left
+    behind in that LLMRails / runtime (state that survives across conversations): reported through `compare` (a broken tie, the
+    search then looks for a self-contained sequence - the `seq` cases on separate conversations are such sequences), never
+    silently dropped."""
+    obs = _run_impl(case)
+    if case["kind"] in ("e2e", "seq", "interp") and _CONFIRMS["n"] < 60:
+        d = oracle(case, obs)
+        if d:
+            _CONFIRMS["n"] += 1
+            po._CACHE.clear()
+            ci._CACHE.clear()
+            obs2 = _run_impl(case)
+            if oracle(case, obs2) is None:
+                obs2["_stale_state"] = d
+            return obs2
+    return obs
+
+
+def _run_impl(case):
     if case["kind"] == "interp":
         return ci.run(case)
     if case["kind"] == "log":
@@ -486,6 +575,9 @@ def _rails_key(rails, full):
 
 
 def compare(case, obs, mouts):
+    if obs.get("_stale_state"):
+        return ("fails only after EARLIER cases were run on the same LLMRails (state that survives across conversations), passes on a "
+                "freshly built one: " + obs["_stale_state"])
     if case["kind"] == "interp":
         return ci.compare(case, obs, mouts[0])
     m = mouts[0]
@@ -730,7 +822,8 @@ def signature(case, obs, msg):
     shortened sequence whose FIRST call fails there (because of what ran before it) is not a smaller witness of a failure
     of a LATER call."""
     if case.get("kind") == "interp":
-        return None
+        d = ci.oracle(case, obs)
+        return "reply-text-is-control-script" if d == f"interp: reply '', documented {po.CONTROL_SCRIPT!r}" else None
     s = _known_signature(case, obs, msg)
     if s is None and case.get("kind") == "seq":
         for k, o in enumerate(obs.get("per_call", [])):
@@ -746,6 +839,18 @@ def _known_signature(case, obs, msg):
     `state-loses-earlier-calls`: a conversation driven through `generate(..., state=...)` whose FIRST deviating call is
     the third or a later one, i.e. a call whose carried state was produced by a call that was itself given a state (that
     state holds only the events of that one call).  A deviation in the first or second call never gets this signature."""
+    # `reply-text-is-control-script`: the FIRST deviation is exactly "the documented reply is the in-band control script of the
+    # 1.0 response assembly and the reply came back empty" (any other deviation of such a case keeps no signature)
+    ctl = f"documented reply {po.CONTROL_SCRIPT!r}, got ''"
+    if case.get("kind") == "e2e" and "exc" not in obs and _oracle_e2e(case, obs) == ctl:
+        return "reply-text-is-control-script"
+    if case.get("kind") == "seq":
+        for k, o in enumerate(obs.get("per_call", [])):
+            d = None if "exc" in o else _oracle_e2e(call_case(case, k), o)
+            if d or "exc" in o:
+                if d == ctl:
+                    return "reply-text-is-control-script"
+                break
     if case.get("kind") == "seq" and case.get("via") == "state":
         for k, o in enumerate(obs.get("per_call", [])):
             if _oracle_e2e(call_case(case, k), o) or "exc" in o:
@@ -793,7 +898,13 @@ def tags(case, obs):
             t.append("options-object-reused" if len(set(keys)) < len(keys) else "share-without-repeat")
         if any(c.get("no_options") for c in case["calls"][1:]):
             t.append("call-without-options-after-calls-with")
+        if case.get("derived"):
+            t.append("texts-derived-from-earlier-calls")
+        us = [c["user"] for c in case["calls"]]
+        if len(set(us)) < len(us):
+            t.append("same-user-text-again")
         for c in case["calls"]:
+            t += ["seq-" + x for x in po.text_classes(c["user"]) + po.text_classes(c["bot"])]
             if not c.get("no_options"):
                 t.append("seq-form:" + c.get("form", "list"))
             if c["bot"] is None and c["opts"] is not None and "output" in c["opts"] and "dialog" not in c["opts"]:
@@ -812,7 +923,11 @@ def tags(case, obs):
     sel = "noopt" if case.get("no_options") else ("default" if case["opts"] is None else "+".join(c[0] for c in case["opts"]) or "none")
     if capped(obs):
         return ["kind:e2e", "event-cap-hit"]
-    t = ["kind:e2e", "opts:" + sel, "dialog:" + cfg["dialog"], "def:" + cfg["rail_def"], "n_in:%d" % len(cfg["input"]), "n_out:%d" % len(cfg["output"]), "form:" + case.get("form", "list")]
+    t = ["kind:e2e", "opts:" + sel, "dialog:" + cfg["dialog"], "def:" + cfg["rail_def"], "text-from:" + cfg.get("text_from", "param"), "n_in:%d" % len(cfg["input"]), "n_out:%d" % len(cfg["output"]), "form:" + case.get("form", "list")]
+    rails_only = case["opts"] is not None and not case.get("no_options") and "dialog" not in case["opts"]
+    t += [("user-" if rails_only else "user-dialog-") + x for x in po.text_classes(case["user"])] + ["bot-" + x for x in po.text_classes(case["bot"])]
+    if rails_only and obs.get("response") is not None and obs["response"] not in (po.REFUSAL, po.INTERNAL_ERROR):
+        t += ["reply-" + x for x in po.text_classes(obs["response"])]
     if cfg["dialog"] == "refuse" and obs.get("response") == po.REFUSAL and not any(r["stop"] for r in obs.get("rails", [])) and obs.get("llm_calls"):
         t.append("dialog-refusal-no-rail-blocked")
     if cfg.get("exceptions"):
@@ -892,3 +1007,5 @@ def _shrink(case):
     for k in ("user", "bot", "llm_text"):
         if case.get(k) and len(case[k]) > 2:
             yield dict(case, **{k: case[k].split(" ")[0] or "q"})
+            if len(case[k]) > 8:
+                yield dict(case, **{k: case[k][: len(case[k]) // 2]})
